@@ -74,3 +74,9 @@ Theorem C03_source_validateResponseAttributes_is_the_model : forall cfg now r,
   G_validateResponseAttributes cfg now r = PVal (validate_attrs (cfg_acs_url cfg) (r_destination r) (r_version r)).
 Proof. exact G_validateResponseAttributes_eq. Qed.
 Print Assumptions C03_source_validateResponseAttributes_is_the_model.
+
+(* ---- the element / attribute names carried by the typed errors are the SAML-core names ---- *)
+From V Require Import SamlSchema P_SamlSchema.
+Theorem C03_error_vocabulary_is_saml_core : generated_vocabulary = saml_vocabulary.
+Proof. exact vocabulary_is_saml. Qed.
+Print Assumptions C03_error_vocabulary_is_saml_core.
